@@ -189,8 +189,10 @@ Apply(pr, s, f, vals) ==
     [] f.op = "assign" -> WriteVar(pr, s, f.n, f.id, vals[1])
 
 Ops(s, f, first, rest) == Eval(PushK(s, f @@ [t |-> "ops", done |-> <<>>, rest |-> rest]), first)
-\* array initializers that need no re-evaluation (their value cannot change between elements)
-Trivial(e) == e.t \in {"Int", "Bool", "Null", "Var"}
+\* constant array initializers: a literal, a variable, or a field read from such an expression; evaluated once
+\* (their value cannot change between elements); everything else is re-executed per element
+RECURSIVE Trivial(_)
+Trivial(e) == e.t \in {"Int", "Bool", "Null", "Var"} \/ (e.t = "GetField" /\ Trivial(e.o))
 
 StepEval(pr, s, e) ==
   CASE e.t = "Int"  -> Ret(s, IntV(e.v))
